@@ -1004,6 +1004,17 @@ Theorem ws_charge_radius_fused :
    from_pqr_line (ws_line false wit_radius) = PValueError).
 Proof. vm_compute. repeat split. Qed.
 
+(* CIF input: print_pqr appends "#"; pdb2pqr's own reader raises on that line,
+   so nothing of an otherwise perfectly formatted file is returned *)
+Theorem ws_cif_trailer_refuted :
+  ws_ok false base_atom = true /\
+  file_chunks true true (print_atoms false [base_atom]) =
+    [ws_line false (with_serial 1 base_atom); "#" ++ nl] /\
+  read_pqr (file_chunks true true (print_atoms false [base_atom])) = inr PValueError /\
+  read_pqr (file_chunks true false (print_atoms false [base_atom])) =
+    inl [expected_ws false (with_serial 1 base_atom)].
+Proof. vm_compute. repeat split. Qed.
+
 (* non-vacuity of the guards: boundary atoms satisfy them *)
 Definition edge_atom : atom :=
   mkatom "HETATM" 99999 "HD11" "LIG1" "Z" (-999) "X" (mkfx true 999999) (mkfx false 9999999)
@@ -1244,10 +1255,10 @@ Lemma respace_nonempty s : is_empty (respace s) = false.
 Proof. unfold respace. destruct (slice 0 6 s); reflexivity. Qed.
 
 Lemma ws_chunks_from cf l : all_types_ok l -> forall i cur,
-  file_chunks true false (map item_text (print_items_from cf i cur l)) =
+  written_chunks true false (map item_text (print_items_from cf i cur l)) =
   map (fun s => respace (s ++ nl)) (numbered cf i l).
 Proof.
-  unfold file_chunks.
+  unfold written_chunks.
   induction l as [|a r IH]; intros Hok i cur; [reflexivity|].
   assert (Ha : type_ok (with_serial (Z.of_nat i + 1) a) = true)
     by (change (type_ok a = true); apply Hok; now left).
@@ -1274,7 +1285,7 @@ Theorem ws_file_roundtrip cf l :
   read_pqr (file_chunks true false (print_atoms cf l)) =
   inl (map (expected_ws cf) (renumbered 0 l)).
 Proof.
-  intros H. unfold print_atoms, print_items.
+  intros H. unfold file_chunks, print_atoms, print_items. rewrite app_nil_r.
   rewrite (ws_chunks_from cf l (all_ok_types cf l 0 H)).
   revert H. generalize 0. induction l as [|a r IH]; intros i H; [reflexivity|].
   destruct H as [Ha Hr]. cbn [numbered renumbered map read_pqr].
